@@ -1,2 +1,419 @@
+(* Proofs about model/Upload.v: a 200 answer with an envelope implies that the object
+   named by the envelope exists, that its size and SHA-256 are the envelope's, and that
+   the broker reply was error code 0.  Invariant over all event sequences: while the S3
+   multipart upload of the session is open, the session's Parts / hashers / NextPart /
+   TotalUploaded describe exactly the parts S3 holds, numbered 1..n in order. *)
 From KS Require Import lib.Base model.Upload.
 Open Scope Z_scope.
+
+Fixpoint numbered (from : Z) (P : list (Z * chunk)) : Prop :=
+  match P with
+  | [] => True
+  | (n, _) :: P' => n = from /\ numbered (from + 1) P'
+  end.
+
+Lemma numbered_ge from P n c : numbered from P -> In (n, c) P -> from <= n.
+Proof.
+  revert from; induction P as [|[n0 c0] P IH]; intros from H Hin; cbn in *; [contradiction|].
+  destruct H as [-> H]. destruct Hin as [E|Hin].
+  - inversion E; subst. lia.
+  - specialize (IH _ H Hin). lia.
+Qed.
+
+Lemma get_part_in from P n c : numbered from P -> In (n, c) P -> get_part n P = Some c.
+Proof.
+  revert from; induction P as [|[n0 c0] P IH]; intros from H Hin; cbn in *; [contradiction|].
+  destruct H as [-> H]. destruct Hin as [E|Hin].
+  - inversion E; subst. now rewrite Z.eqb_refl.
+  - pose proof (numbered_ge _ _ _ _ H Hin) as Hge.
+    destruct (from =? n) eqn:E; [apply Z.eqb_eq in E; lia|]. eapply IH; eauto.
+Qed.
+
+Lemma numbered_app from P n c :
+  numbered from P -> n = from + zlen P -> numbered from (P ++ [(n, c)]).
+Proof.
+  revert from; induction P as [|[n0 c0] P IH]; intros from H Hn.
+  - rewrite zlen_nil in Hn. cbn. split; [lia|exact I].
+  - cbn [numbered app] in *. destruct H as [-> H]. split; [reflexivity|].
+    apply IH; [exact H|]. rewrite zlen_cons in Hn. lia.
+Qed.
+
+Section Proofs.
+  Variable hashf : Z -> blob -> bytes.
+
+  Lemma get_part_listed_all n P :
+    get_part n (listed_all P) = option_map fst (get_part n P).
+  Proof.
+    induction P as [|[n0 c0] P IH]; cbn; [reflexivity|].
+    destruct (n0 =? n); [reflexivity|exact IH].
+  Qed.
+
+  Lemma assemble_numbered P0 : forall Q from prev,
+    (forall n c, In (n, c) Q -> get_part n P0 = Some c) ->
+    numbered from Q -> prev < from ->
+    assemble P0 prev (listed_all Q) = Some (map snd Q).
+  Proof.
+    unfold listed_all.
+    induction Q as [|[n0 c0] Q IH]; intros from prev Hget Hnum Hlt; cbn in *; [reflexivity|].
+    destruct Hnum as [-> Hnum].
+    assert (from <=? prev = false) as -> by (apply Z.leb_gt; lia).
+    rewrite (Hget from c0) by (now left). rewrite Z.eqb_refl.
+    rewrite (IH (from + 1) from); [reflexivity| |exact Hnum|lia].
+    intros n c Hin. apply Hget. now right.
+  Qed.
+
+  Lemma assemble_all P : numbered 1 P -> assemble P 0 (listed_all P) = Some (map snd P).
+  Proof.
+    intros H. apply (assemble_numbered P P 1 0); [|exact H|lia].
+    intros n c Hin. eapply get_part_in; eauto.
+  Qed.
+
+  Lemma listed_exact_gt l : forall from upto, upto < from -> listed_exact l from upto = false.
+  Proof.
+    induction l as [|[n e] l IH]; intros from upto H; cbn.
+    - apply Z.eqb_neq. lia.
+    - rewrite IH by lia. apply andb_false_r.
+  Qed.
+
+  Lemma listed_exact_eq E : forall P listed from,
+    numbered from P ->
+    (forall n c, In (n, c) P -> get_part n E = Some (fst c)) ->
+    listed_exact listed from (from + zlen P) = true ->
+    forallb (fun ne => match get_part (fst ne) E with
+                       | Some etag => etag =? snd ne
+                       | None => false end) listed = true ->
+    listed = listed_all P.
+  Proof.
+    induction P as [|[n0 c0] P IH]; intros listed from Hnum Hget Hex Hall.
+    - rewrite zlen_nil in Hex. destruct listed as [|[n e] l]; [reflexivity|].
+      cbn [listed_exact] in Hex. apply andb_true_iff in Hex as [_ Hex].
+      rewrite listed_exact_gt in Hex by lia. discriminate.
+    - cbn in Hnum. destruct Hnum as [-> Hnum]. rewrite zlen_cons in Hex.
+      destruct listed as [|[n e] l].
+      + cbn [listed_exact] in Hex. apply Z.eqb_eq in Hex. pose proof (zlen_nonneg P). lia.
+      + cbn [listed_exact] in Hex. apply andb_true_iff in Hex as [Hn Hex]. apply Z.eqb_eq in Hn. subst n.
+        cbn [forallb fst snd] in Hall. apply andb_true_iff in Hall as [He Hall].
+        rewrite (Hget from c0) in He by (now left). apply Z.eqb_eq in He. subst e.
+        cbn. f_equal. apply (IH l (from + 1)); [exact Hnum| | |exact Hall].
+        * intros n c Hin. apply Hget. now right.
+        * replace (from + 1 + zlen P) with (from + (1 + zlen P)) by lia. exact Hex.
+  Qed.
+
+  (* ---------- UploadStream's part loop ---------- *)
+  Lemma stream_parts_ok cfg : forall ps n total fs acc st fs' acc',
+    stream_parts cfg ps n total fs acc = (st, fs', acc') -> st = 200 ->
+    numbered 1 acc -> n = 1 + zlen acc ->
+    numbered 1 acc' /\ map snd acc' = map snd acc ++ ps.
+  Proof.
+    induction ps as [|p ps IH]; intros n total fs acc st fs' acc' H Hst Hnum Hn; cbn in H.
+    - inversion H; subst. rewrite app_nil_r. auto.
+    - destruct ((0 <? c_max_blob cfg) && (c_max_blob cfg <? total + snd p)).
+      { inversion H; subst. discriminate. }
+      destruct (next_fault fs) as [f fs1]. destruct f.
+      { inversion H; subst. discriminate. }
+      apply IH in H; [|exact Hst| |].
+      + destruct H as [H1 H2]. split; [exact H1|]. rewrite H2, map_app. cbn. now rewrite <- app_assoc.
+      + apply numbered_app; [exact Hnum|lia].
+      + rewrite zlen_app, zlen_cons, zlen_nil. lia.
+  Qed.
+
+  (* ---------- invariant ---------- *)
+  Definition inv (w : world) : Prop :=
+    match w_sess w with
+    | None => True
+    | Some s =>
+        w_s3open w = true ->
+        numbered 1 (w_s3parts w) /\ s_parts s = listed_all (w_s3parts w) /\
+        s_hashed s = map snd (w_s3parts w) /\ s_next s = 1 + zlen (w_s3parts w) /\
+        s_total s = bsize (s_hashed s)
+    end.
+
+  Lemma inv_init : inv init_world.
+  Proof. exact I. Qed.
+
+  Lemma bsize_app a b : bsize (a ++ b) = bsize a + bsize b.
+  Proof.
+    induction a as [|c a IH]; [reflexivity|].
+    change (bsize ((c :: a) ++ b)) with (snd c + bsize (a ++ b)).
+    change (bsize (c :: a)) with (snd c + bsize a). rewrite IH. lia.
+  Qed.
+
+  Lemma produce_finish_sess key pieces csum alg r w2 w' p :
+    produce_finish hashf key pieces csum alg r w2 = (w', p) ->
+    w_sess w' = w_sess w2 /\ w_s3open w' = w_s3open w2 /\ w_s3parts w' = w_s3parts w2.
+  Proof.
+    unfold produce_finish. intros H.
+    destruct (nonempty csum && nonempty (checksum_of hashf alg pieces) &&
+              negb (bytes_eqb csum (checksum_of hashf alg pieces))); inversion H; subst; cbn; auto.
+  Qed.
+
+  Lemma do_produce_sess cfg w ps cs alg fs r w' p :
+    do_produce hashf cfg w ps cs alg fs r = (w', p) ->
+    w_sess w' = w_sess w /\ w_s3open w' = w_s3open w /\ w_s3parts w' = w_s3parts w.
+  Proof.
+    unfold do_produce. intros H.
+    destruct (alg <? 0); [inversion H; subst; auto|].
+    destruct (nonempty cs && (alg =? 3)); [inversion H; subst; auto|].
+    destruct ps as [|first rest]; [inversion H; subst; auto|].
+    destruct (match rest with [] => snd first <? c_min_part cfg | _ => false end).
+    - destruct (fst (next_fault fs)); [inversion H; subst; cbn; auto|].
+      apply produce_finish_sess in H. cbn in H. exact H.
+    - destruct (fst (next_fault fs)); [inversion H; subst; cbn; auto|].
+      destruct (stream_parts cfg (first :: rest) 1 0 (snd (next_fault fs)) []) as [[st fs1] acc].
+      destruct (negb (st =? 200)); [inversion H; subst; cbn; auto|].
+      destruct (fst (next_fault fs1)); [inversion H; subst; cbn; auto|].
+      destruct (assemble acc 0 (listed_all acc)); [|inversion H; subst; cbn; auto].
+      apply produce_finish_sess in H. cbn in H. exact H.
+  Qed.
+
+  Lemma step_inv cfg w e w' p : inv w -> step hashf cfg w e = (w', p) -> inv w'.
+  Proof.
+    intros Hinv H. destruct e as [ps cs alg fs r|size cs alg f|n body f|listed f r|]; cbn in H.
+    - apply do_produce_sess in H. destruct H as (H1 & H2 & H3).
+      unfold inv in *. rewrite H1, H2, H3. exact Hinv.
+    - unfold do_init in H.
+      destruct (size <=? 0); [inversion H; subst; exact Hinv|].
+      destruct ((0 <? c_max_blob cfg) && (c_max_blob cfg <? size)); [inversion H; subst; exact Hinv|].
+      destruct (alg <? 0); [inversion H; subst; exact Hinv|].
+      destruct (nonempty cs && (alg =? 3)); [inversion H; subst; exact Hinv|].
+      destruct f; inversion H; subst.
+      + exact Hinv.
+      + unfold inv. cbn. intros _. repeat split.
+    - unfold do_part in H.
+      destruct ((n <=? 0) || (2147483647 <? n)); [inversion H; subst; exact Hinv|].
+      destruct (w_sess w) as [s|] eqn:Es; [|inversion H; subst; exact Hinv].
+      destruct (get_part n (s_parts s)); [inversion H; subst; exact Hinv|].
+      destruct (negb (n =? s_next s)) eqn:En; [inversion H; subst; exact Hinv|].
+      destruct (snd body =? 0); [inversion H; subst; exact Hinv|].
+      destruct (c_part_size cfg <? snd body); [inversion H; subst; exact Hinv|].
+      destruct (s_size s <? s_total s + snd body); [inversion H; subst; exact Hinv|].
+      destruct ((s_total s + snd body <? s_size s) && (snd body <? c_min_part cfg)); [inversion H; subst; exact Hinv|].
+      destruct f; [inversion H; subst; exact Hinv|].
+      inversion H; subst; clear H. unfold inv in *. rewrite Es in Hinv.
+      cbn [w_sess w_s3open w_s3parts s_parts s_hashed s_next s_total]. intros Ho.
+      destruct (Hinv Ho) as (H1 & H2 & H3 & H4 & H5).
+      apply negb_false_iff, Z.eqb_eq in En.
+      repeat split.
+      + apply numbered_app; [exact H1|lia].
+      + unfold listed_all in *. rewrite map_app, H2. reflexivity.
+      + rewrite map_app, H3. reflexivity.
+      + rewrite zlen_app, zlen_cons, zlen_nil. lia.
+      + rewrite bsize_app, <- H5. change (bsize [body]) with (snd body + 0). lia.
+    - unfold do_complete in H.
+      destruct (w_sess w) as [s|] eqn:Es; [|inversion H; subst; exact Hinv].
+      destruct (negb (s_total s =? s_size s)); [inversion H; subst; exact Hinv|].
+      destruct listed as [|l0 listed]; [inversion H; subst; exact Hinv|].
+      destruct (negb (forallb _ (l0 :: listed))); [inversion H; subst; exact Hinv|].
+      destruct (negb (listed_exact (l0 :: listed) 1 (s_next s))); [inversion H; subst; exact Hinv|].
+      destruct (f || negb (w_s3open w)); [inversion H; subst; exact Hinv|].
+      destruct (assemble (w_s3parts w) 0 (l0 :: listed)); [|inversion H; subst; exact Hinv].
+      destruct (nonempty (s_expect s) && nonempty (checksum_of hashf (s_alg s) (s_hashed s)) &&
+                negb (bytes_eqb (s_expect s) (checksum_of hashf (s_alg s) (s_hashed s)))).
+      { inversion H; subst. unfold inv. cbn. try rewrite Es. intros; discriminate. }
+      destruct (broker_status r =? 200); inversion H; subst; unfold inv; cbn; [exact I|].
+      try rewrite Es. intros; discriminate.
+    - unfold do_abort in H. destruct (w_sess w); inversion H; subst; [exact I|exact Hinv].
+  Qed.
+
+  Lemma run_inv cfg : forall es w w' rs, inv w -> run hashf cfg w es = (w', rs) -> inv w'.
+  Proof.
+    induction es as [|e es IH]; intros w w' rs Hinv H; cbn in H.
+    - inversion H; subst. exact Hinv.
+    - destruct (step hashf cfg w e) as [w1 p] eqn:Es.
+      destruct (run hashf cfg w1 es) as [w2 ps] eqn:Er. inversion H; subst.
+      eapply IH; [|exact Er]. eapply step_inv; eauto.
+  Qed.
+
+  (* ---------- soundness of a 200 answer ---------- *)
+  Definition completion_reply (e : event) : option reply :=
+    match e with
+    | EProduce _ _ _ _ r => Some r
+    | EComplete _ _ r => Some r
+    | _ => None
+    end.
+
+  Definition sound (e : event) (w' : world) (env : envelope) : Prop :=
+    completion_reply e = Some (RCode 0) /\
+    exists obj, get_obj (e_key env) (w_objects w') = Some obj /\
+                e_size env = bsize obj /\ e_sha env = hashf 0 obj.
+
+  Lemma broker_status_200 r : broker_status r =? 200 = true -> r = RCode 0.
+  Proof.
+    destruct r as [c| | | |]; cbn; try discriminate.
+    destruct (c =? 0) eqn:E; [|discriminate]. apply Z.eqb_eq in E. now subst.
+  Qed.
+
+  Lemma produce_finish_sound key pieces csum alg r w1 obj w' p env :
+    obj = pieces ->
+    produce_finish hashf key pieces csum alg r (put_obj w1 key obj) = (w', p) ->
+    p_env p = Some env ->
+    r = RCode 0 /\ get_obj (e_key env) (w_objects w') = Some obj /\
+    e_size env = bsize obj /\ e_sha env = hashf 0 obj.
+  Proof.
+    intros -> H Henv. unfold produce_finish in H.
+    destruct (nonempty csum && nonempty (checksum_of hashf alg pieces) &&
+              negb (bytes_eqb csum (checksum_of hashf alg pieces))).
+    { inversion H; subst. discriminate. }
+    destruct (broker_status r =? 200) eqn:Eb; inversion H; subst; cbn in Henv; [|discriminate].
+    inversion Henv; subst. cbn. rewrite Z.eqb_refl. split; [now apply broker_status_200|auto].
+  Qed.
+
+  Lemma step_sound cfg w e w' p env :
+    inv w -> step hashf cfg w e = (w', p) -> p_env p = Some env -> sound e w' env.
+  Proof.
+    intros Hinv H Henv. destruct e as [ps cs alg fs r|size cs alg f|n body f|listed f r|]; cbn in H.
+    - unfold do_produce in H.
+      destruct (alg <? 0); [inversion H; subst; discriminate|].
+      destruct (nonempty cs && (alg =? 3)); [inversion H; subst; discriminate|].
+      destruct ps as [|first rest]; [inversion H; subst; discriminate|].
+      destruct (match rest with [] => snd first <? c_min_part cfg | _ => false end).
+      + destruct (fst (next_fault fs)); [inversion H; subst; discriminate|].
+        eapply produce_finish_sound in H; [|reflexivity|exact Henv].
+        destruct H as (-> & H2 & H3 & H4). split; [reflexivity|]. eexists; eauto.
+      + destruct (fst (next_fault fs)); [inversion H; subst; discriminate|].
+        destruct (stream_parts cfg (first :: rest) 1 0 (snd (next_fault fs)) []) as [[st fs1] acc] eqn:Esp.
+        destruct (negb (st =? 200)) eqn:Est; [inversion H; subst; discriminate|].
+        destruct (fst (next_fault fs1)); [inversion H; subst; discriminate|].
+        apply negb_false_iff, Z.eqb_eq in Est.
+        apply stream_parts_ok in Esp; [|exact Est|exact I|reflexivity].
+        destruct Esp as [Hnum Hmap]. cbn [map app] in Hmap.
+        rewrite (assemble_all acc Hnum), Hmap in H.
+        eapply produce_finish_sound in H; [|reflexivity|exact Henv].
+        destruct H as (-> & H2 & H3 & H4). split; [reflexivity|]. eexists; eauto.
+    - unfold do_init in H.
+      destruct (size <=? 0); [inversion H; subst; discriminate|].
+      destruct ((0 <? c_max_blob cfg) && (c_max_blob cfg <? size)); [inversion H; subst; discriminate|].
+      destruct (alg <? 0); [inversion H; subst; discriminate|].
+      destruct (nonempty cs && (alg =? 3)); [inversion H; subst; discriminate|].
+      destruct f; inversion H; subst; discriminate.
+    - unfold do_part in H.
+      destruct ((n <=? 0) || (2147483647 <? n)); [inversion H; subst; discriminate|].
+      destruct (w_sess w) as [s|]; [|inversion H; subst; discriminate].
+      destruct (get_part n (s_parts s)); [inversion H; subst; discriminate|].
+      destruct (negb (n =? s_next s)); [inversion H; subst; discriminate|].
+      destruct (snd body =? 0); [inversion H; subst; discriminate|].
+      destruct (c_part_size cfg <? snd body); [inversion H; subst; discriminate|].
+      destruct (s_size s <? s_total s + snd body); [inversion H; subst; discriminate|].
+      destruct ((s_total s + snd body <? s_size s) && (snd body <? c_min_part cfg)); [inversion H; subst; discriminate|].
+      destruct f; inversion H; subst; discriminate.
+    - unfold do_complete in H.
+      destruct (w_sess w) as [s|] eqn:Es; [|inversion H; subst; discriminate].
+      destruct (negb (s_total s =? s_size s)); [inversion H; subst; discriminate|].
+      destruct listed as [|l0 listed]; [inversion H; subst; discriminate|].
+      destruct (negb (forallb _ (l0 :: listed))) eqn:Eall; [inversion H; subst; discriminate|].
+      destruct (negb (listed_exact (l0 :: listed) 1 (s_next s))) eqn:Eex; [inversion H; subst; discriminate|].
+      destruct (f || negb (w_s3open w)) eqn:Eo; [inversion H; subst; discriminate|].
+      apply orb_false_iff in Eo as [_ Eo]. apply negb_false_iff in Eo.
+      unfold inv in Hinv. rewrite Es in Hinv. destruct (Hinv Eo) as (H1 & H2 & H3 & H4 & H5).
+      apply negb_false_iff in Eall. apply negb_false_iff in Eex.
+      assert (l0 :: listed = listed_all (w_s3parts w)) as El.
+      { apply (listed_exact_eq (s_parts s) (w_s3parts w) (l0 :: listed) 1); [exact H1| | |exact Eall].
+        - intros n c Hin. rewrite H2, get_part_listed_all. rewrite (get_part_in 1 _ n c H1 Hin). reflexivity.
+        - rewrite <- H4. exact Eex. }
+      rewrite El, (assemble_all _ H1) in H.
+      destruct (nonempty (s_expect s) && nonempty (checksum_of hashf (s_alg s) (s_hashed s)) &&
+                negb (bytes_eqb (s_expect s) (checksum_of hashf (s_alg s) (s_hashed s)))).
+      { inversion H; subst. discriminate. }
+      destruct (broker_status r =? 200) eqn:Eb; inversion H; subst; cbn in Henv; [|discriminate].
+      inversion Henv; subst. split; [cbn; f_equal; now apply broker_status_200|].
+      exists (map snd (w_s3parts w)). cbn. rewrite Z.eqb_refl. rewrite H5, H3. auto.
+    - unfold do_abort in H. destruct (w_sess w); inversion H; subst; discriminate.
+  Qed.
+
+  Theorem success_sound cfg es w rs e w' p env :
+    run hashf cfg init_world es = (w, rs) ->
+    step hashf cfg w e = (w', p) ->
+    p_env p = Some env ->
+    p_status p = 200 /\ sound e w' env.
+  Proof.
+    intros Hrun Hstep Henv.
+    pose proof (run_inv cfg es init_world w rs inv_init Hrun) as Hinv.
+    split; [|eapply step_sound; eauto].
+    pose proof (step_sound cfg w e w' p env Hinv Hstep Henv) as [Hr _].
+    (* an envelope is only ever attached to a 200 answer *)
+    clear Hr. revert Hstep Henv. clear.
+    destruct e as [ps cs alg fs r|size cs alg f|n body f|listed f r|]; cbn; intros H Henv.
+    - unfold do_produce in H.
+      repeat match type of H with
+      | (if ?c then _ else _) = _ => destruct c
+      | (match ?c with _ => _ end) = _ => destruct c
+      | (let '(_, _) := ?c in _) = _ => destruct c
+      end; try (inversion H; subst; cbn in Henv; discriminate);
+      unfold produce_finish in H;
+      repeat match type of H with
+      | (if ?c then _ else _) = _ => destruct c
+      end; inversion H; subst; cbn in *; try discriminate;
+      match goal with |- context [if ?c then _ else _] => destruct c end; cbn in *; try discriminate; reflexivity.
+    - unfold do_init in H.
+      repeat match type of H with (if ?c then _ else _) = _ => destruct c end;
+      inversion H; subst; discriminate.
+    - unfold do_part in H.
+      repeat match type of H with
+      | (if ?c then _ else _) = _ => destruct c
+      | (match ?c with _ => _ end) = _ => destruct c
+      end; inversion H; subst; discriminate.
+    - unfold do_complete in H.
+      repeat match type of H with
+      | (if ?c then _ else _) = _ => destruct c
+      | (match ?c with _ => _ end) = _ => destruct c
+      end; inversion H; subst; cbn in *; try discriminate; reflexivity.
+    - unfold do_abort in H. destruct (w_sess w); inversion H; subst; discriminate.
+  Qed.
+  Lemma produce_finish_200 key pieces csum alg r w2 w' p :
+    produce_finish hashf key pieces csum alg r w2 = (w', p) -> p_status p = 200 -> p_env p <> None.
+  Proof.
+    unfold produce_finish. intros H H200.
+    destruct (nonempty csum && nonempty (checksum_of hashf alg pieces) &&
+              negb (bytes_eqb csum (checksum_of hashf alg pieces))).
+    { inversion H; subst. discriminate. }
+    destruct (broker_status r =? 200) eqn:E; inversion H; subst; cbn in *; [discriminate|].
+    apply Z.eqb_neq in E. contradiction.
+  Qed.
+
+  Lemma completion_200_env cfg w e w' p r :
+    step hashf cfg w e = (w', p) -> completion_reply e = Some r -> p_status p = 200 -> p_env p <> None.
+  Proof.
+    intros H Hr H200. destruct e as [ps cs alg fs r0|size cs alg f|n body f|listed f r0|]; cbn in H, Hr; try discriminate.
+    - unfold do_produce in H.
+      destruct (alg <? 0); [inversion H; subst; discriminate|].
+      destruct (nonempty cs && (alg =? 3)); [inversion H; subst; discriminate|].
+      destruct ps as [|first rest]; [inversion H; subst; discriminate|].
+      destruct (match rest with [] => snd first <? c_min_part cfg | _ => false end).
+      + destruct (fst (next_fault fs)); [inversion H; subst; discriminate|].
+        eapply produce_finish_200; eauto.
+      + destruct (fst (next_fault fs)); [inversion H; subst; discriminate|].
+        destruct (stream_parts cfg (first :: rest) 1 0 (snd (next_fault fs)) []) as [[st fs1] acc].
+        destruct (negb (st =? 200)) eqn:Est.
+        { inversion H; subst. cbn in H200. subst st. discriminate. }
+        destruct (fst (next_fault fs1)); [inversion H; subst; discriminate|].
+        destruct (assemble acc 0 (listed_all acc)); [|inversion H; subst; discriminate].
+        eapply produce_finish_200; eauto.
+    - unfold do_complete in H.
+      destruct (w_sess w) as [s|]; [|inversion H; subst; discriminate].
+      destruct (negb (s_total s =? s_size s)); [inversion H; subst; discriminate|].
+      destruct listed as [|l0 listed]; [inversion H; subst; discriminate|].
+      destruct (negb (forallb _ (l0 :: listed))); [inversion H; subst; discriminate|].
+      destruct (negb (listed_exact (l0 :: listed) 1 (s_next s))); [inversion H; subst; discriminate|].
+      destruct (f || negb (w_s3open w)); [inversion H; subst; discriminate|].
+      destruct (assemble (w_s3parts w) 0 (l0 :: listed)); [|inversion H; subst; discriminate].
+      destruct (nonempty (s_expect s) && nonempty (checksum_of hashf (s_alg s) (s_hashed s)) &&
+                negb (bytes_eqb (s_expect s) (checksum_of hashf (s_alg s) (s_hashed s)))).
+      { inversion H; subst. discriminate. }
+      destruct (broker_status r0 =? 200) eqn:E; inversion H; subst; cbn in *; [discriminate|].
+      apply Z.eqb_neq in E. contradiction.
+  Qed.
+
+  Theorem broker_error_rejected cfg es w rs e w' p r :
+    run hashf cfg init_world es = (w, rs) ->
+    step hashf cfg w e = (w', p) ->
+    completion_reply e = Some r -> r <> RCode 0 ->
+    p_status p <> 200 /\ p_env p = None.
+  Proof.
+    intros Hrun Hstep Hr Hne.
+    destruct (p_env p) as [env|] eqn:Henv.
+    - destruct (success_sound cfg es w rs e w' p env Hrun Hstep Henv) as (_ & Hc & _).
+      rewrite Hr in Hc. inversion Hc. contradiction.
+    - split; [|reflexivity]. intros H200.
+      apply (completion_200_env cfg w e w' p r Hstep Hr H200). exact Henv.
+  Qed.
+End Proofs.
